@@ -6,6 +6,7 @@ sys.path.insert(0,'/verif')
 from vpipe import build
 b=build.build('/repo','/verif')
 open('/verif/build/all.rs','w').write(b.text())
+for k,why in b.skipped: print('SKIPPED HINT',k,why)
 args=sys.argv[1:]
 t=time.time()
 p=subprocess.run(['verus','all.rs','--cfg','feature="yoloproofs"','--error-format=json','--output-json','--time','--multiple-errors','5']+args,cwd='/verif/build',capture_output=True,text=True)
